@@ -20,9 +20,18 @@ REPO = os.environ.get("CV_REPO", "/repo")   # CV_REPO: run the same machinery ag
 ALT = REPO != "/repo"
 ALLOWED_AXIOMS = {"propext", "Classical.choice", "Quot.sound"}
 FORBIDDEN_RE = re.compile(
-    r"\b(sorry|admit|native_decide|bv_decide|implemented_by)\b|^\s*axiom\s|\bunsafe\s|maxHeartbeats\s+0\b",
+    r"\b(sorry|admit|native_decide|bv_decide|implemented_by)\b|^\s*axiom\s|\bunsafe\s|maxHeartbeats\s+0\b"
+    r"|@\[\s*extern\b|@\[\s*csimp\b|^\s*(?:private\s+|protected\s+)?opaque\s|\bpartial\s+def\b",
     re.M,
 )
+# The only foreign bindings the models may contain: three libm functions at `Float` that Lean's core does not expose, declared
+# `opaque` (no Lean body, so no theorem can unfold them; they exist only in the Float drivers).  Drivers (Compute/Drv/*) are
+# executables, not theorem inputs, and may use `partial def`.
+FORBIDDEN_ALLOW = {
+    ("Compute/Model/Scalar.lean", '@[extern "log1p"] opaque log1pF : Float → Float'),
+    ("Compute/Model/Scalar.lean", '@[extern "expm1"] opaque expm1F : Float → Float'),
+    ("Compute/Model/VopsScalar.lean", '@[extern "hypot"] opaque hypotF : Float → Float → Float'),
+}
 
 MASK = (1 << 64) - 1
 
